@@ -365,13 +365,13 @@ def _(I, a):
 
 
 def parse_local(I, a):
-    """str::parse::<DateTime<Local>>: RFC 3339 subset  YYYY-MM-DD(T| )HH:MM:SS(Z|+HH:MM)"""
+    """str::parse::<DateTime<Local>>: the subset  YYYY-MM-DD(T| )HH:MM:SS[.f][ ](Z|UTC|+HH:MM|+HHMM)  of chrono's relaxed RFC 3339 parser"""
     s = as_str(a[0])
     bs = s.bytes()
     if any(is_sym(b) for b in bs):
         raise Unsupported('symbolic --time-limited-current')
     t = bytes(bs).decode(errors='replace')
-    m = re.fullmatch(r'(\d{4})-(\d\d)-(\d\d)[Tt ](\d\d):(\d\d):(\d\d)(\.\d{1,9})?(Z|z|[+-]\d\d:\d\d)', t)
+    m = re.fullmatch(r'(\d{4})-(\d\d)-(\d\d)[Tt ](\d\d):(\d\d):(\d\d)(\.\d{1,9})? ?(Z|z|UTC|utc|[+-]\d\d:?\d\d)', t)
     if not m:
         if t == '' or not re.match(r'^\d', t):
             return err(Opaque('chrono_parse_error'))
@@ -379,7 +379,7 @@ def parse_local(I, a):
     y, mo, d, h, mi, sec = map(int, m.groups()[:6])
     z = m.group(8)
     nanos = int((m.group(7)[1:] + '0' * 9)[:9]) if m.group(7) else 0
-    off = 0 if z in 'Zz' else (1 if z[0] == '+' else -1) * (int(z[1:3]) * 3600 + int(z[4:6]) * 60)
+    off = 0 if z in ('Z', 'z', 'UTC', 'utc') else (1 if z[0] == '+' else -1) * (int(z[1:3]) * 3600 + int(z[-2:]) * 60)
     try:
         import datetime
         datetime.datetime(y, mo, d, h, mi, min(sec, 59))
